@@ -10,16 +10,17 @@ def m_argument_parser(ex, st, fn, args, kw):
     p = Ref("ArgumentParser"); st.heap[p.oid] = {}; yield st, p
 def m_add_argument(ex, st, recv, args, kw): yield st, None
 def m_parse_args(ex, st, recv, args, kw):
-    ns = st.ghost["namespace"]; yield st, ns
     sb = st.copy(); yield sb, Raise(ex.new_builtin_exc(sb, "SystemExit", [2]))          # argparse rejects the arguments itself (exit code 2, trusted)
+    ns = st.ghost["namespace"]; yield st, ns          # (the unchanged state is yielded last: alternatives are copied before the continuation can touch it)
 def m_parser_error(ex, st, recv, args, kw):
     st.ghost["parser_error"] = True; yield st, Raise(ex.new_builtin_exc(st, "SystemExit", [2]))
 def m_noop(ex, st, fn, args, kw): yield st, None
 def m_set_cid(ex, st, fn, args, kw):
     st.ghost["cid_set_from"] = args[0]
+    sb = st.copy(); sc = st.copy()
+    yield from raise_new(ex, sb, "InterfaceError")
+    yield sc, Raise(ex.new_builtin_exc(sc, "OSError", ["cannot read CID"]))
     yield st, None
-    sb = st.copy(); yield from raise_new(ex, sb, "InterfaceError")
-    sc = st.copy(); yield sc, Raise(ex.new_builtin_exc(sc, "OSError", ["cannot read CID"]))
 
 
 def setup_set_options(ex, st):
@@ -175,8 +176,8 @@ def unit_process():
         app = Ref("CutplaceApp"); st.heap[app.oid] = {"is_gui": False, "is_create_sql": False, "data_paths": st.ghost["paths"], "all_validations_were_ok": True, "cid_path": "cid", "cid": Ref("Cid")}
         st.ghost["app"] = app; yield st, app
     def m_set_options(ex, st, recv, args, kw):
-        yield st, None
         sb = st.copy(); sb.ghost["setup_failed"] = True; yield from raise_new(ex, sb, "InterfaceError")
+        yield st, None
     def m_validate(ex, st, recv, args, kw):
         i = lift(st.frames[-1].env["_i0"]).z; o = st.heap[recv.oid]
         res = st.ghost["file_result"]     # Int -> Int : 0 accepted, 1 rejected, 2 unreadable
